@@ -333,6 +333,34 @@ Proof.
   cbn [run]. rewrite Hstep, Hstep2. cbn [snd]. rewrite Hcl. unfold body. rewrite firstn_firstn, Nat.min_id. reflexivity.
 Qed.
 
+Lemma forallb_andb_split {A} (f g : A -> bool) l :
+  forallb (fun x => f x && g x) l = true -> forallb f l = true /\ forallb g l = true.
+Proof.
+  induction l as [|x l IH]; cbn [forallb]; [auto|].
+  intros H. apply andb_true_iff in H. destruct H as [Hx Hl]. apply andb_true_iff in Hx. destruct Hx as [Hf Hg].
+  destruct (IH Hl) as [H1 H2]. rewrite Hf, Hg, H1, H2. auto.
+Qed.
+
+(* ... and both stay that way: after the hand-on, whatever further operations are applied to the family (accesses, copies,
+   header rewrites, more hand-ons, new inputs on OTHER objects), the original keeps presenting c and the consumer keeps
+   presenting what it was given, and neither access touches a stream. *)
+Lemma hand_on_then_stable w r rq c k ops k1 k2 :
+  nth_error (w_reqs w) r = Some rq -> r_failed rq = false -> r_cache rq = Some c ->
+  let n := length (w_reqs w) in
+  forallb (fun o => negb (sets_input r o) && negb (sets_input n o)) ops = true ->
+  let w2 := fst (run buf None (fst (step buf None w (OHandOn r k))) ops) in
+  step buf None w2 (OBody r k1) = (w2, OutBytes (take_opt k1 c))
+  /\ step buf None w2 (OBody n k2) = (w2, OutBytes (take_opt k2 (firstn (Z.to_nat (r_cl rq)) c))).
+Proof.
+  intros Hr Hf Hc n Hops w2.
+  destruct (hand_on_lemma w r rq c k Hr Hf Hc) as (w1 & s1 & Hstep & Hnew & Hold & _).
+  unfold w2. rewrite Hstep. cbn [fst].
+  destruct (forallb_andb_split _ _ _ Hops) as [Hops_r Hops_n].
+  split.
+  - exact (stable_lemma buf None w1 r c ops k1 Hold Hops_r).
+  - exact (stable_lemma buf None w1 n _ ops k2 Hnew Hops_n).
+Qed.
+
 End First.
 
 (* ---- record: a copy taken BEFORE the first access shares the unread server
